@@ -561,11 +561,12 @@ Record st := mk {
   ran : nat -> nat;          (* ghost *)
   werrs : list nat;          (* error collector of ParallelForEach -> Run's error -> Wait *)
   herrs : list nat;          (* errors passed to the observer *)
-  result : option (list nat * list nat)
+  hfinal : bool;             (* the service's ErrorHandler (= the observer) has been called with the aggregated error *)
+  result : option (list nat)
 }.
 
 Definition init : st :=
-  mk false false false PNotStarted [] SplOff 0 [] [] 0 false [] [] [] (fun _ => 0) [] [] None.
+  mk false false false PNotStarted [] SplOff 0 [] [] 0 false [] [] [] (fun _ => 0) [] [] false None.
 
 Inductive ev :=
 | EAdd (j : nat)             (* queue.Add returns nil   [observable] *)
@@ -580,7 +581,9 @@ Inductive ev :=
 | EWorkerExit
 | ERunReturn                 (* wg.Operation().Block() passes; deferred cancel() *)
 | ECloseQ
-| EFinish.
+| EFinish
+| EHandlerFinal.             (* the service's error-handler goroutine calls the observer with the aggregated error;
+                                Service.Wait may return before that (it returns as soon as isFinished is set) *)
 
 Definition observable (e : ev) : bool :=
   match e with
@@ -614,88 +617,92 @@ Definition to_handler (j : nat) : bool :=
 
 Definition step (s : st) (e : ev) : option st :=
   match s with
-  | mk c ic cl p q sp0 idl rc rn ex ab fin dr ac rr we he res =>
+  | mk c ic cl p q sp0 idl rc rn ex ab fin dr ac rr we he hf res =>
     let pctx := c || ic in
     match e with
     | EAdd j =>
         if negb cl && negb (memb j ac)
-        then Some (mk c ic cl p (q ++ [j]) sp0 idl rc rn ex ab fin dr (j :: ac) rr we he res) else None
+        then Some (mk c ic cl p (q ++ [j]) sp0 idl rc rn ex ab fin dr (j :: ac) rr we he hf res) else None
     | EAddRej j => if cl || bounded cf then Some s else None
     | EStart =>
         match p with
-        | PNotStarted => Some (mk c ic cl PRunning q SplTop (nworkers cf) rc rn ex ab fin dr ac rr we he res)
+        | PNotStarted => Some (mk c ic cl PRunning q SplTop (nworkers cf) rc rn ex ab fin dr ac rr we he hf res)
         | _ => None
         end
-    | ECancel => Some (mk true ic cl p q sp0 idl rc rn ex ab fin dr ac rr we he res)
+    | ECancel => Some (mk true ic cl p q sp0 idl rc rn ex ab fin dr ac rr we he hf res)
     | ESplCheck =>
         match sp0 with
-        | SplTop => if pctx then Some (mk c ic cl p q SplExited idl rc rn ex ab fin dr ac rr we he res)
-                    else Some (mk c ic cl p q SplReady idl rc rn ex ab fin dr ac rr we he res)
+        | SplTop => if pctx then Some (mk c ic cl p q SplExited idl rc rn ex ab fin dr ac rr we he hf res)
+                    else Some (mk c ic cl p q SplReady idl rc rn ex ab fin dr ac rr we he hf res)
         | _ => None
         end
     | ESplPop =>
         match sp0, q with
-        | SplReady, j :: q' => Some (mk c ic cl p q' (SplHold j) idl rc rn ex ab fin dr ac rr we he res)
+        | SplReady, j :: q' => Some (mk c ic cl p q' (SplHold j) idl rc rn ex ab fin dr ac rr we he hf res)
         | _, _ => None
         end
     | ESplExit =>
         (* Queue.Wait fails only while the queue is empty: closed, or context done *)
         match sp0, q with
-        | SplReady, [] => if cl || pctx then Some (mk c ic cl p q SplExited idl rc rn ex ab fin dr ac rr we he res) else None
+        | SplReady, [] => if cl || pctx then Some (mk c ic cl p q SplExited idl rc rn ex ab fin dr ac rr we he hf res) else None
         | _, _ => None
         end
     | EHandoff =>
         match sp0, idl with
-        | SplHold j, S i' => Some (mk c ic cl p q SplTop i' (rc ++ [j]) rn ex ab fin dr ac rr we he res)
+        | SplHold j, S i' => Some (mk c ic cl p q SplTop i' (rc ++ [j]) rn ex ab fin dr ac rr we he hf res)
         | _, _ => None
         end
     | EDrop =>
         match sp0 with
-        | SplHold j => if pctx then Some (mk c ic cl p q SplExited idl rc rn ex ab fin (j :: dr) ac rr we he res) else None
+        | SplHold j => if pctx then Some (mk c ic cl p q SplExited idl rc rn ex ab fin (j :: dr) ac rr we he hf res) else None
         | _ => None
         end
     | EJobBegin j =>
         if memb j rc
-        then Some (mk c ic cl p q sp0 idl (rm1 j rc) (j :: rn) ex ab fin dr ac (upd rr j (S (rr j))) we he res)
+        then Some (mk c ic cl p q sp0 idl (rm1 j rc) (j :: rn) ex ab fin dr ac (upd rr j (S (rr j))) we he hf res)
         else None
     | EJobEnd j =>
         if memb j rn && (negb (blocking (oc j)) || pctx)
         then let we' := if to_wait j then j :: we else we in
              let he' := if to_handler j then j :: he else he in
              if continues j
-             then Some (mk c ic cl p q sp0 (S idl) rc (rm1 j rn) ex ab (j :: fin) dr ac rr we' he' res)
-             else Some (mk c ic cl p q sp0 idl rc (rm1 j rn) (S ex) true (j :: fin) dr ac rr we' he' res)
+             then Some (mk c ic cl p q sp0 (S idl) rc (rm1 j rn) ex ab (j :: fin) dr ac rr we' he' hf res)
+             else Some (mk c ic cl p q sp0 idl rc (rm1 j rn) (S ex) true (j :: fin) dr ac rr we' he' hf res)
         else None
     | EAbortCancel =>
-        if ab then Some (mk c true cl p q sp0 idl rc rn ex ab fin dr ac rr we he res) else None
+        if ab then Some (mk c true cl p q sp0 idl rc rn ex ab fin dr ac rr we he hf res) else None
     | EWorkerExit =>
         match idl with
         | S i' => if pctx || match sp0 with SplExited => true | _ => false end
-                  then Some (mk c ic cl p q sp0 i' rc rn (S ex) ab fin dr ac rr we he res) else None
+                  then Some (mk c ic cl p q sp0 i' rc rn (S ex) ab fin dr ac rr we he hf res) else None
         | 0 => None
         end
     | ERunReturn =>
         match p with
         | PRunning => if Nat.eqb ex (nworkers cf)
-                      then Some (mk c true cl PReturned q sp0 idl rc rn ex ab fin dr ac rr we he res) else None
+                      then Some (mk c true cl PReturned q sp0 idl rc rn ex ab fin dr ac rr we he hf res) else None
         | _ => None
         end
     | ECloseQ =>
         (* Shutdown runs once the service's context is done: cancelled from outside, or by the wrapper after Run returned *)
         if c || match p with PReturned => true | _ => false end
-        then Some (mk c ic true p q sp0 idl rc rn ex ab fin dr ac rr we he res) else None
+        then Some (mk c ic true p q sp0 idl rc rn ex ab fin dr ac rr we he hf res) else None
     | EFinish =>
         match p with
         | PReturned =>
-            if cl
-            then let he' := if handler cf then we ++ he else he in   (* the service's ErrorHandler is the observer *)
-                 Some (mk c ic cl PFinished q sp0 idl rc rn ex ab fin dr ac rr we he' (Some (we, he')))
-            else None
+            if cl then Some (mk c ic cl PFinished q sp0 idl rc rn ex ab fin dr ac rr we he hf (Some we)) else None
+        | _ => None
+        end
+    | EHandlerFinal =>
+        match p with
+        | PFinished =>
+            if handler cf && negb hf
+            then Some (mk c ic cl p q sp0 idl rc rn ex ab fin dr ac rr we (we ++ he) true res) else None
         | _ => None
         end
     | EWaitRet w h =>
         match p, res with
-        | PFinished, Some (w0, h0) => if same_set w w0 && same_set h h0 then Some s else None
+        | PFinished, Some w0 => if same_set w w0 && same_set h he then Some s else None
         | _, _ => None
         end
     end
@@ -740,6 +747,12 @@ Definition next_end (rest : list ev) (s : st) : option ev :=
              | 0 => None
              end
     | PReturned => if closed s then Some EFinish else Some ECloseQ
+    | PFinished =>
+        match rest with
+        | EWaitRet _ h :: _ =>
+            if handler cf && negb (hfinal s) && negb (same_set h (herrs s)) then Some EHandlerFinal else None
+        | _ => None
+        end
     | _ => None
     end
   end.
